@@ -13,6 +13,6 @@ def run(ctx):
         over = [c for c in r["counts"] if c > r["limit"]]
         what = "pack-above-header-limit" if over else ("finalize-fails" if not all(r["final"]) else "blob-not-in-exactly-one-pack")
         ctx.violate("upload/header-limit/%s" % what,
-                    "%d tiny blobs through two packers: queued packs hold %s blobs (limit %d), Finalize ok=%s, save_err=%s flush_err=%s" % (
+                    "%d tiny blobs through the packer manager: queued packs hold %s blobs (limit %d), Finalize ok=%s, save_err=%s flush_err=%s" % (
                         r["n"], r["counts"], r["limit"], r["final"], r["save_err"], r["flush_err"]), r)
     return repo_common.finish_trace(ctx, out, "model_checking", extra_cov={"header_limit_sessions_checked_by_tlc": n})
